@@ -130,7 +130,7 @@ def generate(rng, idx, tier):
     for i in range(n):
         op = gen_op(rng, cfg, hot, idx * 1000 + i + 1)
         if faulty and rng.random() < 0.25:
-            b = rng.choice([0x02, 0x08, 0x18, 0x28])
+            b = rng.choice([0x02, 0x02, 0x08, 0x18, 0x28, 0x40, 0x30, 0x04])
             op["fault"] = {"kind": "status", "byte": b}
             if b == 2:
                 op["fault"]["sense"] = S.fixed(rng.choice([2, 3, 4, 6, 0xB]), *rng.choice([(0x04, 0x01), (0x29, 0x00), (0x11, 0x00), (0x44, 0x00)])).hex()
@@ -248,9 +248,13 @@ def execute(prog):
             reprs[t] = _outcome_repr(kind, val, name)
             faulted = bool(dl) and dl[0].get("fault") == "status"
             if faulted:
-                # the target refused before executing: no effect in the model; how the error surfaces is C07's
-                if kind == "ok" and name.startswith("read1"):
-                    pass
+                # the target refused before executing: no effect in the model.  Which error surfaces is C07's business,
+                # but over both transports alike the caller must not be told the command was done
+                if kind == "ok":
+                    V.append(dict(oracle="C12.failed-command-looks-done", where=where, detail="status=%#04x" % dl[0]["status"],
+                                  expected="an error: the target completed %s with status %#04x and did nothing" % (name, dl[0]["status"]),
+                                  actual="returned normally"))
+                reprs[t] = "exc" if kind == "exc" else "ok"
                 WORLD.ev("op.end", i=i, transport=t, outcome=reprs[t])
                 continue
             if name.startswith(("read1", "write1")) and op["lba"] >= (1 << 32):
